@@ -42,6 +42,10 @@ func init() {
 			return sc
 		}
 
+		if run%8 == 2 {
+			return genFOExpireAllRace(r)
+		}
+
 		// a quarter of the random runs: callers also rewrite / reuse their key buffers after Get returned
 		// (a result that lands under another key is a value "belonging to another key")
 		return genFOBase(r, foShape{minClients: 1, maxClients: 6, maxKeys: 3, maxOps: 4, sleeps: true, skipRead: true, faults: true, ctxTTL: false, callerTricks: run%8 == 0})
@@ -69,6 +73,41 @@ func init() {
 }
 
 const c02Sweep = 16
+
+// genFOExpireAllRace: Gets on expired entries (within and beyond MaxStaleness) while another goroutine calls
+// ExpireAll on the backend again and again: every entry's expiry instant moves under the Gets' feet, and
+// whatever a Get decides about "servable stale value or not" it must decide consistently.
+func genFOExpireAllRace(r *rand.Rand) *Scenario {
+	sc := genFOBase(r, foShape{minClients: 2, maxClients: 4, maxKeys: 2, maxOps: 2, skipRead: false})
+	fo := sc.FO
+	fo.Faults = FOFaults{}
+	fo.Cfg.MaxStalenessNs = pick(r, 10*sec, 10*sec, 500*ms, 0)
+	fo.Cfg.SyncUpdate = chance(r, 0.2)
+	fo.Cfg.FailHard = chance(r, 0.2)
+	fo.BackendJitter = -1
+
+	for i := range fo.Init {
+		fo.Init[i].State = "stale"
+		fo.Init[i].AgeNs = pick(r, 60*sec, 60*sec, 11*sec, sec, ms) // mostly beyond MaxStaleness
+		fo.Init[i].FailAgeNs = -1
+	}
+
+	var side []FOOp
+
+	for i := 1 + r.IntN(3); i > 0; i-- {
+		side = append(side, FOOp{Kind: "expireAll"})
+
+		if chance(r, 0.5) {
+			side = append(side, FOOp{Kind: "sleep", SleepNs: pick(r, int64(1), 100, 1000)})
+		}
+	}
+
+	fo.Clients = append(fo.Clients, side)
+	sc.NoFastPath = true
+	sc.Sched = genSched(r, 80)
+
+	return sc
+}
 
 // --- helpers ------------------------------------------------------------------------------------
 
@@ -977,7 +1016,8 @@ func (r *foRun) oracleC06() {
 
 func containsStr(xs []string, v string) bool {
 	for _, x := range xs {
-		if x == v {
+		// "#...": a key-lock table that is not keyed by the key string (see the hook): any key may be locked
+		if x == v || strings.HasPrefix(x, "#") {
 			return true
 		}
 	}
